@@ -364,9 +364,6 @@ where
         part_ids: &mut [usize],
         (adjacency, weights): (T, &'a [W]),
     ) -> Result<Self::Metadata, Self::Error> {
-        if part_ids.is_empty() {
-            return Ok(Metadata::default());
-        }
         if part_ids.len() != weights.len() {
             return Err(Error::InputLenMismatch {
                 expected: part_ids.len(),
@@ -378,6 +375,9 @@ where
                 expected: part_ids.len(),
                 actual: adjacency.len(),
             });
+        }
+        if part_ids.is_empty() {
+            return Ok(Metadata::default());
         }
         if 1 < *part_ids.iter().max().unwrap_or(&0) {
             return Err(Error::BiPartitioningOnly);
